@@ -1,11 +1,11 @@
 (* C11 round trip: runs the extracted printer [print_spec], the denotation [spec_of] and the
    hypotheses [wf_aspec] / [wf_layout] of the theorem lex_roundtrip (C11/Print.v, RoundSpec.v)
-   on a description of (awc, pe, sp, lay); also evaluates the theorem's left-hand side, the
+   on a description of (awc, pe, iw, sp, lay); also evaluates the theorem's left-hand side, the
    extracted mirror [lex_from_str repaired] on the printed text.
 
    case line (tokens separated by blanks; <text> = x<hex of the UTF-8 bytes>, x alone = empty;
    <cp> = decimal code point):
-     <awc:0|1> <pe:0|1> <nstates> {<text name> <excl:0|1>}*  <nrules> rule*  layout
+     <awc:0|1> <pe:0|1> <iw:0|1> <nstates> {<text name> <excl:0|1>}*  <nrules> rule*  layout
      rule   := <npre> <text>*npre  <text regex as written>  (- | <text name>)  (- | (R|+|~) <text state>)      (~ = pop)
      layout := <n> ditem*n  <ndlines> dline*  <text blanks after %%>  <n> ritem*n  <nrlines> rline*  final
      ditem  := w <cp> | c <text body> <cp>
@@ -15,8 +15,8 @@
      final  := e | ec <text body> | cl <text ws>
 
    result line:
-     <wf_aspec:0|1> <wf_layout:0|1> x<hex of (print_spec lay sp)> # <transcript of (spec_of pe lay sp)>
-       # <transcript of (lex_from_str repaired (print_spec lay sp) 0 awc pe [])>
+     <wf_aspec:0|1> <wf_layout:0|1> x<hex of (print_spec lay sp)> # <transcript of (spec_of pe iw lay sp)>
+       # <transcript of (lex_from_str repaired (print_spec lay sp) 0 awc pe iw [])>
    transcripts in the format of the OK / ERRS section of harness/src/bin/c11.rs. *)
 exception Bad of string
 
@@ -92,7 +92,7 @@ let show_parsed = function
       List.iter (fun (s, t) -> Buffer.add_string b (Printf.sprintf " %d %d" (int_of_nat s) (int_of_nat t))) e.e_spans) errs;
     Buffer.contents b
 
-let decode (toks : string list) : bool * bool * aspec * layout =
+let decode (toks : string list) : bool * bool * bool * aspec * layout =
   let cur = ref toks in
   let next () = match !cur with [] -> raise (Bad "short") | t :: r -> cur := r; t in
   let num () = int_of_string (next ()) in
@@ -102,6 +102,7 @@ let decode (toks : string list) : bool * bool * aspec * layout =
   let cp () = n_of_int (num ()) in
   let awc = flag () in
   let pe = flag () in
+  let iw = flag () in
   let ns = num () in
   let states = many ns (fun () -> let n = txt () in let e = flag () in (n, e)) in
   let rule () =
@@ -158,16 +159,16 @@ let decode (toks : string list) : bool * bool * aspec * layout =
     | "cl" -> FClose (txt ())
     | s -> raise (Bad ("final " ^ s))) in
   if !cur <> [] then raise (Bad "trailing");
-  (awc, pe, { a_states = states; a_rules = rules },
+  (awc, pe, iw, { a_states = states; a_rules = rules },
    { l_pre = pre; l_dlines = dlines; l_sep_blanks = sepb; l_gap0 = gap0; l_rlines = rlines; l_final = final })
 
 let () =
   iter_lines (fun line ->
     match (try Ok (decode (split_ws line)) with Bad m -> Error m | Failure m -> Error m | Invalid_argument m -> Error m) with
     | Error m -> "BADCASE " ^ m
-    | Ok (awc, pe, sp, lay) ->
+    | Ok (awc, pe, iw, sp, lay) ->
       let text = print_spec lay sp in
       Printf.sprintf "%d %d x%s # %s # %s"
         (if wf_aspec awc sp then 1 else 0) (if wf_layout awc lay sp then 1 else 0)
-        (hex_of_text text) (show_state (spec_of pe lay sp))
-        (show_parsed (lex_from_str repaired text O awc pe [])))
+        (hex_of_text text) (show_state (spec_of pe iw lay sp))
+        (show_parsed (lex_from_str repaired text O awc pe iw [])))
